@@ -13,9 +13,7 @@
 //	respace     Parse of a re-spaced source (whitespace/comments inserted between tokens) is DeepEqual
 //	panic       Parse / String never panic
 //	erroffset   a *ParseError has 0 <= Offset <= len(src)
-//	errtoken    ParseError.Token is the substring of src ending at Offset (or empty); two deviations of the
-//	            unchanged tree are counted, not reported (see docs/C09.md): the opening quote of an
-//	            interpolated string leaves the previous token's text, an invalid UTF-8 byte is reported as U+FFFD
+//	errtoken    ParseError.Token is the substring of src ending at Offset (or empty)
 //	emul        the paren-matching emulation of the parser's inString feedback in VerifLex agrees with the
 //	            real parse (the ParseError is the one VerifLex predicts at some token; an accepted source has
 //	            no invalid token)
@@ -149,14 +147,7 @@ func checkSource(c *Ctx, src string, tag string) parsed {
 			return p
 		}
 		if pe.Token != "" && !strings.HasSuffix(src[:pe.Offset], pe.Token) {
-			switch {
-			case pe.Token == "\uFFFD" && pe.Offset > 0 && src[pe.Offset-1] >= 0x80:
-				c.Count("errtoken-deviation:invalid-utf8-as-U+FFFD")
-			case pe.Offset > 0 && src[pe.Offset-1] == '"' && staleStart(toks, pe):
-				c.Count("errtoken-deviation:stale-token-at-interpolated-string-start")
-			default:
-				c.Violation("errtoken %q :: ParseError.Token=%q is not the text ending at Offset=%d", src, pe.Token, pe.Offset)
-			}
+			c.Violation("errtoken %q :: ParseError.Token=%q is not the text ending at Offset=%d", src, pe.Token, pe.Offset)
 		}
 		found := false
 		for _, t := range toks {
@@ -211,18 +202,20 @@ func checkSource(c *Ctx, src string, tag string) parsed {
 	return p
 }
 
-// staleStart: the rejected token is a tokStringStart (which does not set l.token)
-func staleStart(toks []gojq.VerifToken, pe *gojq.ParseError) bool {
-	for _, t := range toks {
-		if t.Name == "tokStringStart" && t.ErrOffset == pe.Offset && t.ErrToken == pe.Token {
-			return true
-		}
-	}
-	return false
-}
-
 // ---------------------------------------------------------------------------------------------
 // transport
+
+// hexl: a byte string as (h <hex chunk> ...), 16 bytes per chunk
+func hexl(b []byte) string {
+	var sb strings.Builder
+	sb.WriteString("(h")
+	for i := 0; i < len(b); i += 16 {
+		sb.WriteByte(' ')
+		sb.WriteString(hex.EncodeToString(b[i:min(i+16, len(b))]))
+	}
+	sb.WriteByte(')')
+	return sb.String()
+}
 
 func kindSexp(t gojq.VerifToken) string {
 	switch {
@@ -235,13 +228,13 @@ func kindSexp(t gojq.VerifToken) string {
 
 func emitLex(c *Ctx, src string) {
 	var sb strings.Builder
-	sb.WriteString("(lex " + Hexs([]byte(src)))
+	sb.WriteString("(lex " + hexl([]byte(src)))
 	for _, t := range gojq.VerifLex(src) {
 		in := 0
 		if t.InString {
 			in = 1
 		}
-		fmt.Fprintf(&sb, " (%s %s %d %d %d %s)", kindSexp(t), Hexs([]byte(t.Token)), t.Offset, in, t.ErrOffset, Hexs([]byte(t.ErrToken)))
+		fmt.Fprintf(&sb, " (%s %s %d %d %d %s)", kindSexp(t), hexl([]byte(t.Token)), t.Offset, in, t.ErrOffset, hexl([]byte(t.ErrToken)))
 	}
 	sb.WriteString(")")
 	c.Emit("%s", sb.String())
@@ -286,11 +279,11 @@ func emitOps(c *Ctx, src string) {
 		return
 	}
 	if p.err != nil {
-		c.Emit("(ops %s err -)", Hexs([]byte(src)))
+		c.Emit("(ops %s err (h))", hexl([]byte(src)))
 		return
 	}
 	str, _ := safeString(p.q)
-	c.Emit("(ops %s %s %s)", Hexs([]byte(src)), astSexp(p.q), Hexs([]byte(str)))
+	c.Emit("(ops %s %s %s)", hexl([]byte(src)), astSexp(p.q), hexl([]byte(str)))
 }
 
 // ---------------------------------------------------------------------------------------------
@@ -705,7 +698,7 @@ func (g *gen) program(d int) string {
 }
 
 var trickySeeds = []string{
-	".", "..", ". .x", "0 .x", "1 .x", "1. .x", "1.5 .x", ".. .x", "..|.x", `. ."x"`, `.x."y"`, `.x.y`, `."x"."y"`, `."x".y`, ". .[0]",
+	".", "..", `import "" as a; .`, `import "" as $a; .`, `include ""; .`, ". .[1:2]", ". .[:-1]", ". .[null]", ". .[0].a", ". .[0][1]", ". .x", "0 .x", "1 .x", "1. .x", "1.5 .x", ".. .x", "..|.x", `. ."x"`, `.x."y"`, `.x.y`, `."x"."y"`, `."x".y`, ". .[0]",
 	".[0]", ".[0].a", ".a[0]", ".a.[0]", ".a[]", ".a.[]", ". []", ".[]?", ".a?", ".a??", ".a? // 1", ".a?//1", "..?", "..[0]", `.. ."a"`,
 	". as [$a] ?// $a | 1", ". as [$a]?//$a|1", ". as {a:$x} ?// [$x] ?// $x | $x", ". as {$a, b: [$c]} | 1", `. as {"a": $x, ("b"): $y, $z} | 1`,
 	`. as {"a\(1)": $x} | $x`, "try error catch .", "try error", "try error catch . | 1", "[.[]?]", "-1", "- 1", "--1", "-.a", "- -.a", "+1", "+-1",
